@@ -10,7 +10,7 @@ use std::sync::Mutex;
 /// the positional twin of the child space: tuple structs all the way down, indices as paths
 fn child_pos_opts(tier: &str) -> (FlatOpts, Option<usize>) {
     if tier == "quick" {
-        (FlatOpts { max_members: 3, max_ghosts: 1, max_depth: 2, positional: true }, Some(5))
+        (FlatOpts { max_members: 3, max_ghosts: 1, max_depth: 2, positional: true }, Some(6))
     } else {
         (FlatOpts { max_members: 4, max_ghosts: 1, max_depth: 2, positional: true }, Some(6))
     }
@@ -18,7 +18,7 @@ fn child_pos_opts(tier: &str) -> (FlatOpts, Option<usize>) {
 
 fn child_opts(tier: &str) -> (FlatOpts, Option<usize>) {
     if tier == "quick" {
-        (FlatOpts { max_members: 3, max_ghosts: 1, max_depth: 2, positional: false }, Some(6))
+        (FlatOpts { max_members: 3, max_ghosts: 1, max_depth: 2, positional: false }, Some(5))
     } else {
         (FlatOpts { max_members: 4, max_ghosts: 1, max_depth: 3, positional: false }, Some(7))
     }
